@@ -76,8 +76,296 @@ class Result:
         return '%s%s [%s]' % (NAMES[self.state], ' (possibly empty)' if self.maybe_empty else '', ' -> '.join(self.why))
 
 
-def of_value(px, st, v, facts=None):
-    """typestate of a vector-valued term (local history chain)"""
+def join(a, b):
+    """least upper bound in  SD < S < U,  SD < UQ < U"""
+    if a == b:
+        return a
+    if a == SD:
+        return b
+    if b == SD:
+        return a
+    return U
+
+
+_SUMMARIES = {}
+
+
+class Summary(Result):
+    """what a repository helper (possibly with loops) returns: typestate of the collection over all exits, whether a `Some(..)` /
+    plain collection result may be empty, whether it can return None, and which parameter its elements are taken from"""
+    def __init__(self, state, maybe_empty, why, some_empty, src_param):
+        Result.__init__(self, state, maybe_empty, why)
+        self.some_empty, self.src_param = some_empty, src_param
+
+
+def unwrap_coll(v):
+    for _ in range(8):
+        if v[0] == 'adt' and v[2] == 'Some' and len(v[3]) == 1:
+            v = v[3][0]
+        elif v[0] == 'pure' and last(v[1]) in ('into_boxed_slice', 'into_vec', 'into', 'from') and len(v[2]) == 1:
+            v = v[2][0]
+        elif v[0] == 'cref':
+            v = v[1]
+        else:
+            break
+    return v
+
+
+def chain_base(v):
+    while v[0] == 'mut':
+        v = v[1]
+    return v
+
+
+def summarize_fn(prog, fn):
+    """Summary of the collection a repository function returns, or None when it is not understood (callers fail closed).
+    Loop-carried local vectors get an inductive invariant: the typestate established before the loop is assumed at the loop head and
+    must be re-established by every iteration (otherwise it is weakened and the check repeated: the lattice is finite)."""
+    key = (id(prog), fn)
+    if key in _SUMMARIES:
+        return _SUMMARIES[key]
+    _SUMMARIES[key] = None          # recursion guard
+    from . import px as pxm
+    b = prog.bodies.get(fn)
+    if b is None:
+        return None
+    e = pxm.PX(prog)
+    try:
+        segs = e.explore(fn)
+    except Exception:
+        return None
+    if e.unmodelled:
+        return None
+    mir = b['mir']
+    rets = [s for s in segs if s.kind == 'return']
+    if not rets:
+        return None
+    entry_loops = [s for s in segs if s.kind == 'loop' and s.src[0] == 'entry']
+    body_loops = [s for s in segs if s.kind == 'loop' and s.src[0] == 'head']
+
+    def assigned_by_statement(l):
+        for blk in mir['blocks']:
+            for st_ in blk['stmts']:
+                if st_['k'] == 'assign' and st_['lhs']['l'] == l and not st_['lhs']['p']:
+                    return True
+        return False
+
+    hyps = {}
+
+    def hyp_for(l):
+        """(entry invariant, loop invariant) of local vector l as (state, maybe_empty) pairs"""
+        if l in hyps:
+            return hyps[l]
+        if assigned_by_statement(l):
+            hyps[l] = None
+            return None
+        he = None
+        for s in entry_loops:
+            if s.env is None or l not in s.env:
+                hyps[l] = None
+                return None
+            r = of_value(e, s.state, s.env[l], s.facts)
+            he = (r.state, r.maybe_empty) if he is None else (join(he[0], r.state), he[1] or r.maybe_empty)
+        if he is None:
+            hyps[l] = None
+            return None
+        hl = None
+        for _ in range(6):
+            cur = he if hl is None else (join(he[0], hl[0]), he[1] or hl[1])
+            new = None
+            for s in body_loops:
+                if s.env is None or l not in s.env:
+                    hyps[l] = None
+                    return None
+                r = of_value(e, s.state, s.env[l], s.facts, hyp={(l,): cur})
+                ne = r.maybe_empty
+                if ne and found_in(e, s, l):
+                    ne = False          # a successful search on the collection: it holds the element
+                new = (r.state, ne) if new is None else (join(new[0], r.state), new[1] or ne)
+            if new is None or new == hl:
+                break
+            hl = new if hl is None else (join(hl[0], new[0]), hl[1] or new[1])
+        hyps[l] = (he, hl)
+        return hyps[l]
+
+    def found_in(e, s, l):
+        for k, val in s.facts.items():
+            if k[0] == 'tag' and is_search(k[1]) and val == 'pos' and k[1][2]:
+                try:
+                    if models.vec_place(e, s.state, k[1][2][0]) == ('L', 1, l):
+                        return True
+                except Exception:
+                    pass
+        return False
+
+    def zero_iterations_infeasible(s):
+        """the exit taken is `for x in <slice>` running out of elements, and the slice is known to be non-empty before the loop"""
+        nx = [ev for ev in s.events if ev[0] == 'next']
+        if not nx or s.facts.get(('tag', ('has', nx[0][1], nx[0][2]))) != 'neg':
+            return False
+        it = nx[0][1]
+        if it[0] != 'L' or not entry_loops:
+            return False
+        for es in entry_loops:
+            if any(ev[0] in ('next', 'peek') and ev[1] == it for ev in es.events):
+                return False
+            v = (es.env or {}).get(it[2])
+            if v is None:
+                return False
+            src = None
+            if v[0] == 'sliceiter':
+                subj = v[1]
+            elif v[0] == 'pure' and last(v[1]) in ('into_iter', 'iter') and len(v[2]) == 1:
+                try:
+                    subj = e.subject_of(es.state, v[2][0])
+                except Exception:
+                    return False
+            else:
+                return False
+            shp = es.shapes.get(subj)
+            if shp is None or 0 in shp.lengths():
+                return False
+        return True
+
+    def elem_source(s, v, inner=False):
+        """parameter index every element of the collection value v comes from (None: not understood)"""
+        srcs = set()
+        x = unwrap_coll(v)
+        while x[0] == 'mut':
+            op = last(x[2])
+            args = x[4] if len(x) > 4 else ()
+            if op in ('push', 'insert') and args:
+                el = strip_ref(args[-1])
+                if el[0] == 'slice' and el[1][0] == 'T':
+                    it = el[1][1]
+                    srcs.add(iter_param(it))
+                else:
+                    srcs.add(None)
+            elif op in ('extend', 'extend_from_slice', 'append'):
+                ap = terms.access_path(args[0]) if args else None
+                srcs.add(ap[0] if ap and not ap[1] else None)
+            x = x[1]
+        if x[0] == 'pure' and last(x[1]) in ('to_vec', 'to_owned', 'into_vec', 'clone') and len(x[2]) == 1:
+            ap = terms.access_path(x[2][0])
+            srcs.add(ap[0] if ap and not ap[1] else None)
+        elif x[0] == 'lv' and len(x[1]) == 1:
+            # loop-carried: elements added by the loop body segments, plus what was there before the loop
+            if not inner:
+                for ls in body_loops + entry_loops:
+                    if ls.env and x[1][0] in ls.env:
+                        srcs.add(elem_source(ls, ls.env[x[1][0]], inner=True))
+                    else:
+                        srcs.add(None)
+        elif x[0] == 'pure' and (last(x[1]) in FRESH_EMPTY or x[1] in FRESH_EMPTY):
+            pass
+        else:
+            srcs.add(None)
+        srcs.discard('same')
+        if len(srcs) == 1:
+            return next(iter(srcs))
+        if not srcs:
+            return 'same'
+        return None
+
+    def iter_param(it):
+        if it[0] != 'L':
+            return None
+        for es in entry_loops:
+            v = (es.env or {}).get(it[2])
+            if v is None:
+                return None
+            if v[0] == 'sliceiter':
+                ap = terms.access_path(('ref', v[1]))
+            elif v[0] == 'pure' and last(v[1]) in ('into_iter', 'iter', 'copied', 'cloned') and len(v[2]) == 1:
+                inner = v[2][0]
+                if inner[0] == 'sliceiter':
+                    ap = terms.access_path(('ref', inner[1]))
+                else:
+                    ap = terms.access_path(inner)
+            else:
+                return None
+            if ap and not ap[1]:
+                return ap[0]
+        return None
+
+    from . import terms
+    state, maybe_empty, some_empty, why = None, False, False, []
+    srcs = set()
+    for s in rets:
+        if s.ret is None:
+            return None
+        r0 = s.ret
+        if r0[0] == 'adt' and r0[2] == 'Err':
+            continue
+        if r0[0] == 'adt' and r0[2] == 'Ok' and r0[3]:
+            r0 = r0[3][0]
+        if r0[0] == 'adt' and r0[2] == 'None' and not r0[3]:
+            maybe_empty = True
+            continue
+        v = unwrap_coll(r0)
+        base = chain_base(v)
+        hyp = None
+        if base[0] == 'lv' and len(base[1]) == 1:
+            h = hyp_for(base[1][0])
+            if h is None:
+                return None
+            he, hl = h
+            if s.src[0] == 'head':
+                if hl is not None and zero_iterations_infeasible(s):
+                    cur = hl
+                elif hl is not None:
+                    cur = (join(he[0], hl[0]), he[1] or hl[1])
+                else:
+                    cur = he
+            else:
+                cur = he
+            hyp = {base[1]: cur}
+        elif base[0] in ('lv', 'call', 'init', 'param', 'fld', 'unk'):
+            if not (base[0] == 'call' and base[1] in prog.bodies):
+                return None
+        r = of_value(e, s.state, v, s.state.facts, hyp=hyp)
+        state = r.state if state is None else join(state, r.state)
+        maybe_empty = maybe_empty or r.maybe_empty
+        if r.maybe_empty and not (r0[0] == 'adt' and r0[2] == 'None'):
+            some_empty = True
+        why = r.why
+        srcs.add(elem_source(s, v))
+    if state is None:
+        return None
+    srcs.discard('same')
+    sm = Summary(state, maybe_empty, ['%s: %s' % (fn.split('::')[-1], ' -> '.join(why))], some_empty, next(iter(srcs)) if len(srcs) == 1 else None)
+    _SUMMARIES[key] = sm
+    return sm
+
+
+def call_summary(px, v):
+    """Summary for a value that is the result of a repository helper kept opaque by PX (it has loops), else None"""
+    v = unwrap_coll(v)
+    if v[0] in ('call', 'ret') and isinstance(v[1], str) and v[1] in px.p.bodies:
+        return summarize_fn(px.p, v[1])
+    return None
+
+
+def content_source(px, v):
+    """the term the elements of collection value v are copied from (argument of to_vec / of a summarised helper), or None"""
+    x = unwrap_coll(v)
+    x = chain_base(x)
+    for _ in range(6):
+        if x[0] == 'pure' and x[2] and last(x[1]) in ('to_vec', 'to_owned', 'into_vec', 'clone'):
+            return x[2][0]
+        if x[0] == 'pure' and len(x[2]) == 1 and last(x[1]) in ('into_boxed_slice', 'into', 'from'):
+            x = chain_base(unwrap_coll(x[2][0]))
+            continue
+        break
+    if x[0] in ('call', 'ret') and isinstance(x[1], str) and x[1] in px.p.bodies:
+        sm = summarize_fn(px.p, x[1])
+        if sm is not None and isinstance(sm.src_param, int) and sm.src_param - 1 < len(x[2]):
+            return x[2][sm.src_param - 1]
+    return None
+
+
+def of_value(px, st, v, facts=None, hyp=None):
+    """typestate of a vector-valued term (local history chain); hyp: {loop-local key: (state, maybe_empty)} inductive hypotheses"""
     v0 = v
     for _ in range(8):
         if v[0] == 'adt' and v[2] == 'Some' and len(v[3]) == 1:
@@ -97,9 +385,16 @@ def of_value(px, st, v, facts=None):
     chain.reverse()
     base = v
     why = []
+    sm = call_summary(px, base) if base[0] in ('call', 'ret') else None
     if base[0] == 'pure' and (last(base[1]) in FRESH_EMPTY or base[1] in FRESH_EMPTY):
         state, empty = SD, True
         why.append('fresh empty')
+    elif hyp and base[0] == 'lv' and base[1] in hyp:
+        state, empty = hyp[base[1]]
+        why.append('loop invariant: ' + NAMES[state])
+    elif sm is not None:
+        state, empty = sm.state, sm.maybe_empty
+        why.extend(sm.why)
     else:
         state, empty = U, True
         why.append(px.short(base, 60))
